@@ -188,10 +188,6 @@ func classifyDDL(name string) *ddlInfo {
 		d.reason = "file-not-shipped"
 		return d
 	}
-	if strings.Contains(text, "SUBSET {") {
-		d.reason = "subset-dump"
-		return d
-	}
 	doc, err := ParseDDL(text)
 	if err != nil {
 		d.reason = "not-understood"
@@ -266,8 +262,8 @@ func one(cs Case) vt.Verdict {
 }
 
 func pickFiles(all []string) []string {
-	if vt.Thorough() {
-		return all
+	if vt.Thorough() || os.Getenv("VERIF_C06_SUBSET") == "" {
+		return all // the whole enumeration takes seconds: both tiers use every file
 	}
 	seed := vt.GetEnv().Seed
 	type kv struct {
@@ -395,7 +391,7 @@ func body(t *testing.T) {
 		}
 	}
 
-	rec.SetExhaustive(sub, vt.Thorough())
+	rec.SetExhaustive(sub, vt.Thorough() || os.Getenv("VERIF_C06_SUBSET") == "")
 	for k, v := range skips {
 		if strings.HasPrefix(k, "+") {
 			rec.Label(sub, k[1:], int64(v))
